@@ -180,8 +180,11 @@ class AbstractInventory(ABC):
 
         for nuc, inp in contents.items():
             if isinstance(inp, (numbers.Number, Expr)):
-                if inp >= 0:
-                    continue
+                try:
+                    if inp >= 0:
+                        continue
+                except TypeError:  # unordered quantities, e.g. complex, SymPy NaN or symbols
+                    pass
             raise ValueError(f"{inp} is not a valid quantity of nuclide {nuc}.")
 
     def _get_atomic_mass(self, nuc: str) -> Union[float, Expr]:
@@ -1492,6 +1495,9 @@ class InventoryHP(AbstractInventory):
                     f"Decay dataset supplied to {self.__class__.__name__} constructor does not "
                     "contain SymPy data."
                 ) from None
+            for nuc, val in contents.items():
+                if not isinstance(val, (numbers.Real, Expr)) or isinstance(val, bool):
+                    raise ValueError(f"{val} is not a valid quantity of nuclide {nuc}.")
             contents = {nuc: nsimplify(val) for nuc, val in contents.items()}
 
         self.sig_fig = 320
